@@ -50,6 +50,7 @@ func (c *Chain) BlockWithV1Contracts(specs []V1ContractSpec) (types.Block, conse
 func (c *Chain) BlockWithV2Contracts(specs []V2ContractSpec) (types.Block, consensus.V1BlockSupplement, []types.FileContractID, error) {
 	x := c.newCtx()
 	ids := make([]types.FileContractID, len(specs))
+	var prev *types.V2FileContract
 	for i, sp := range specs {
 		ins, total, ok := x.fundV2(types.Siacoins(1), 2)
 		if !ok {
@@ -65,6 +66,11 @@ func (c *Chain) BlockWithV2Contracts(specs []V2ContractSpec) (types.Block, conse
 		c.Files[r] = sp.Data
 		fc.Filesize, fc.FileMerkleRoot, fc.Capacity = uint64(len(sp.Data)), r, uint64(len(sp.Data))
 		fc.ProofHeight, fc.ExpirationHeight = sp.ProofHeight, sp.ExpirationHeight
+		if sp.Twin && prev != nil {
+			fc = *prev
+		}
+		pf := fc
+		prev = &pf
 		cost := fc.RenterOutput.Value.Add(fc.HostOutput.Value).Add(x.cs.V2FileContractTax(fc))
 		if cost.Cmp(total) > 0 {
 			x.release(ins)
